@@ -781,3 +781,611 @@ Proof.
   intros H. induction a as [|x s IH]; intros [|y t]; cbn; try discriminate; [reflexivity|].
   intros E. apply andb_true_iff in E. destruct E as [E1 E2]. f_equal; [apply H; exact E1|apply IH; exact E2].
 Qed.
+
+(* ================================================================== each pair once, the stored values, the compaction *)
+(* ------------------------------------------------------------------ each pair once: generic facts *)
+Lemma NoDup_app_iff' {A} (l1 l2 : list A) :
+  NoDup (l1 ++ l2) <-> NoDup l1 /\ NoDup l2 /\ (forall x, In x l1 -> In x l2 -> False).
+Proof.
+  induction l1 as [|a l1 IH]; cbn [app].
+  - split; [intros H; repeat split; [constructor|exact H|intros x []]|intros [_ [H _]]; exact H].
+  - split.
+    + intros H. inversion H as [|? ? Hn Hd]; subst. apply IH in Hd. destruct Hd as [H1 [H2 H3]].
+      split; [constructor; [intros Hi; apply Hn; apply in_or_app; left; exact Hi|exact H1]|].
+      split; [exact H2|]. intros x [<-|Hx] Hx2; [apply Hn; apply in_or_app; right; exact Hx2|exact (H3 x Hx Hx2)].
+    + intros [H1 [H2 H3]]. inversion H1 as [|? ? Hn Hd]; subst. constructor.
+      * intros Hi. apply in_app_or in Hi. destruct Hi as [Hi|Hi]; [exact (Hn Hi)|exact (H3 a (or_introl eq_refl) Hi)].
+      * apply IH. split; [exact Hd|]. split; [exact H2|]. intros x Hx. apply H3. right. exact Hx.
+Qed.
+
+Lemma NoDup_map_inj_in {A B} (f : A -> B) l :
+  (forall x y, In x l -> In y l -> f x = f y -> x = y) -> NoDup l -> NoDup (map f l).
+Proof.
+  induction l as [|a l IH]; intros Hinj Hn; cbn [map]; [constructor|].
+  inversion Hn as [|? ? Ha Hl]; subst. constructor.
+  - rewrite in_map_iff. intros [y [E Hy]]. apply Ha.
+    rewrite (Hinj a y (or_introl eq_refl) (or_intror Hy) (eq_sym E)). exact Hy.
+  - apply IH; [|exact Hl]. intros x y Hx Hy. apply Hinj; right; assumption.
+Qed.
+
+Lemma NoDup_map_filter {A B} (g : A -> B) (f : A -> bool) l : NoDup (map g l) -> NoDup (map g (filter f l)).
+Proof.
+  induction l as [|a l IH]; intros H; cbn [filter map]; [constructor|].
+  cbn [map] in H. inversion H as [|? ? Ha Hl]; subst.
+  destruct (f a); [|exact (IH Hl)]. cbn [map]. constructor; [|exact (IH Hl)].
+  rewrite in_map_iff. intros [y [E Hy]]. apply Ha. rewrite in_map_iff. exists y.
+  apply filter_In in Hy. split; [exact E|apply Hy].
+Qed.
+
+(* a concatenation of lists whose elements carry the key of their source: no duplicates across sources *)
+Lemma NoDup_map_flat_map {A B C K} (g : B -> C) (f : A -> list B) (ka : A -> K) (kc : C -> K) l :
+  (forall a b, In a l -> In b (f a) -> kc (g b) = ka a) -> NoDup (map ka l) ->
+  (forall a, In a l -> NoDup (map g (f a))) -> NoDup (map g (flat_map f l)).
+Proof.
+  induction l as [|a l IH]; intros Hk Hn Hf; cbn [flat_map map]; [constructor|].
+  rewrite map_app. cbn [map] in Hn. inversion Hn as [|? ? Ha Hl]; subst.
+  apply NoDup_app_iff'. split; [apply Hf; left; reflexivity|]. split.
+  - apply IH; [intros a' b Ha' Hb; apply Hk; [right; exact Ha'|exact Hb]|exact Hl|intros a' Ha'; apply Hf; right; exact Ha'].
+  - intros x Hx1 Hx2. rewrite in_map_iff in Hx1, Hx2. destruct Hx1 as [b1 [<- Hb1]]. destruct Hx2 as [b2 [E Hb2]].
+    rewrite in_flat_map in Hb2. destruct Hb2 as [a' [Ha' Hb2]].
+    apply Ha. rewrite in_map_iff. exists a'. split; [|exact Ha'].
+    rewrite <- (Hk a' b2 (or_intror Ha') Hb2), E. apply Hk; [left; reflexivity|exact Hb1].
+Qed.
+
+Lemma map_fst_indexed {A} (l : list A) : map fst (indexed l) = seq 0 (length l).
+Proof.
+  unfold indexed. generalize 0%nat. induction l as [|a l IH]; intros k; cbn [length seq combine map]; [reflexivity|].
+  cbn [fst]. f_equal. apply IH.
+Qed.
+
+Section SearchOnce.
+  Variable P : Type.
+  Variable D : Type.
+  Variable near : P -> P -> bool.
+  Variable dist : P -> P -> D.
+  Variable ctest : list P -> list P -> bool.
+
+  Notation ipair := (ipair D).
+
+  Lemma gquery_once B Q : NoDup (map ipair (gquery P D near dist B Q)).
+  Proof.
+    unfold gquery.
+    apply (NoDup_map_flat_map ipair _ (@fst nat P) (@snd nat nat)).
+    - intros [j q] x _ Hx. rewrite in_flat_map in Hx. destruct Hx as [[i b] [_ Hx]]. cbn [fst snd] in *.
+      destruct (near b q); [|destruct Hx]. destruct Hx as [<-|[]]. reflexivity.
+    - rewrite map_fst_indexed. apply seq_NoDup.
+    - intros [j q] _. cbn [fst snd].
+      apply (NoDup_map_flat_map ipair _ (@fst nat P) (@fst nat nat)).
+      + intros [i b] x _ Hx. cbn [fst snd] in *. destruct (near b q); [|destruct Hx]. destruct Hx as [<-|[]]. reflexivity.
+      + rewrite map_fst_indexed. apply seq_NoDup.
+      + intros [i b] _. cbn [fst snd]. destruct (near b q); cbn [map]; repeat constructor. intros [].
+  Qed.
+
+  Lemma ipair_swap3 x : ipair (swap3 D x) = (snd (ipair x), fst (ipair x)).
+  Proof. destruct x as [[i j] d]. reflexivity. Qed.
+
+  Lemma swap3_once l : NoDup (map ipair l) -> NoDup (map ipair (map (swap3 D) l)).
+  Proof.
+    intros H. rewrite map_map.
+    rewrite (map_ext _ (fun x => (fun ij : nat * nat => (snd ij, fst ij)) (ipair x)) ipair_swap3).
+    rewrite <- (map_map ipair (fun ij : nat * nat => (snd ij, fst ij))). apply NoDup_map_inj_in; [|exact H].
+    intros [a b] [a' b'] _ _ E. cbn [fst snd] in E. congruence.
+  Qed.
+
+  (* the search reports each index pair once: whatever index is kept *)
+  Lemma spatial_search_once mf st L1 L2 : NoDup (map ipair (snd (spatial_search P D near dist ctest mf st L1 L2))).
+  Proof.
+    unfold spatial_search. cbn [snd]. destruct (choose P ctest mf st L1 L2).
+    - apply gquery_once.
+    - apply swap3_once. apply gquery_once.
+  Qed.
+End SearchOnce.
+
+Lemma bins_of_NoDup w o ts : NoDup (bins_of w o ts).
+Proof.
+  unfold bins_of. apply NoDup_map_inj_in; [|apply seq_NoDup]. intros x y _ _ E. lia.
+Qed.
+
+Section BinnedOnce.
+  Variable P : Type.
+  Variable D : Type.
+  Variable near : P -> P -> bool.
+  Variable dist : P -> P -> D.
+  Variable ctest : list P -> list P -> bool.
+  Hypothesis near_sym : forall a b, near a b = near b a.
+  Hypothesis dist_sym : forall a b, dist a b = dist b a.
+  Hypothesis ctest_sound : forall a b, ctest a b = true -> a = b.
+
+  Notation pt := (pt P).
+  Notation has_pos := (has_pos P).
+  Notation ipair := (ipair D).
+
+  Variables (mf m w o : Z) (A B : list pt).
+  Hypothesis w_pos : 0 < w.
+  Hypothesis A_sorted : StronglySorted (le_key (@ptime P)) A.
+  Hypothesis A_pos : Forall (fun p => has_pos p = true) A.
+
+  Notation bin_search := (bin_search P D near dist ctest mf m w o A B).
+
+  (* an entry of the bin b names (after the offset) a point of A that lies in the bin b *)
+  Definition in_bin (b : Z) (x : nat * nat * D) : Prop :=
+    exists p, nth_error A (fst (fst x)) = Some p /\ binof w o (ptime p) = b.
+
+  Lemma bin_tag st b x : In x (snd (bin_search st b)) -> in_bin b x.
+  Proof.
+    unfold C04_collocate.bin_search. fold (chunk1 P w o A b).
+    match goal with |- context [isnil ?c1 || isnil ?c2] => destruct (isnil c1 || isnil c2) end; cbn [snd]; [intros []|].
+    rewrite in_map_iff. intros [y [<- Hy]].
+    apply (spatial_search_spec P D near dist ctest near_sym dist_sym ctest_sound) in Hy.
+    destruct Hy as [a [c [Ha [_ _]]]].
+    apply (poslist_nth P (chunk1 P w o A b) (sub_pos P _ A A_pos)) in Ha. destruct Ha as [p [Hp _]].
+    assert (Li : (fst (fst y) < length (chunk1 P w o A b))%nat) by (apply nth_error_Some; congruence).
+    exists p. unfold shift3. cbn [fst snd]. rewrite (chunk1_nth P w o A w_pos A_sorted b _ Li).
+    split; [exact Hp|]. apply nth_error_In in Hp. unfold chunk1 in Hp. apply filter_In in Hp.
+    apply Z.eqb_eq. apply Hp.
+  Qed.
+
+  Lemma ipair_shift3 o1 o2 x : ipair (shift3 D o1 o2 x) = ((o1 + fst (ipair x))%nat, (o2 + snd (ipair x))%nat).
+  Proof. destruct x as [[i j] d]. reflexivity. Qed.
+
+  Lemma bin_once st b : NoDup (map ipair (snd (bin_search st b))).
+  Proof.
+    unfold C04_collocate.bin_search.
+    match goal with |- context [isnil ?c1 || isnil ?c2] => destruct (isnil c1 || isnil c2) end; cbn [snd map]; [constructor|].
+    rewrite map_map.
+    match goal with |- NoDup (map (fun x => ipair (shift3 D ?o1 ?o2 x)) ?l) =>
+      rewrite (map_ext _ (fun x => (fun ij : nat * nat => ((o1 + fst ij)%nat, (o2 + snd ij)%nat)) (ipair x))
+                       (ipair_shift3 o1 o2));
+      rewrite <- (map_map ipair (fun ij : nat * nat => ((o1 + fst ij)%nat, (o2 + snd ij)%nat))) end.
+    apply NoDup_map_inj_in; [|apply spatial_search_once].
+    intros [a b'] [a' b''] _ _ E. cbn [fst snd] in E. inversion E. f_equal; lia.
+  Qed.
+
+  Lemma fold_bins_from f : forall bs st x, In x (snd (fold_bins P D f st bs)) -> exists st' b, In b bs /\ In x (snd (f st' b)).
+  Proof.
+    induction bs as [|b t IH]; intros st x; cbn [fold_bins snd]; [intros []|].
+    intros H. apply in_app_or in H. destruct H as [H|H].
+    - exists st, b. split; [left; reflexivity|exact H].
+    - destruct (IH _ _ H) as [st' [b' [Hb Hx]]]. exists st', b'. split; [right; exact Hb|exact Hx].
+  Qed.
+
+  (* no index pair comes from two bins: the first index names a point of A and a point lies in one bin *)
+  Lemma fold_bins_once : forall bs st, NoDup bs -> NoDup (map ipair (snd (fold_bins P D bin_search st bs))).
+  Proof.
+    induction bs as [|b t IH]; intros st Hn; cbn [fold_bins snd map]; [constructor|].
+    inversion Hn as [|? ? Hb Ht]; subst. rewrite map_app. apply NoDup_app_iff'.
+    split; [apply bin_once|]. split; [apply IH; exact Ht|].
+    intros ij H1 H2. rewrite in_map_iff in H1, H2. destruct H1 as [x [<- Hx]]. destruct H2 as [y [E Hy]].
+    apply bin_tag in Hx. apply fold_bins_from in Hy. destruct Hy as [st' [b' [Hb' Hy]]]. apply bin_tag in Hy.
+    destruct Hx as [p [Hp Hpb]]. destruct Hy as [q [Hq Hqb]].
+    unfold C04_collocate.ipair in E. rewrite E in Hq. rewrite Hp in Hq. inversion Hq; subst q. subst b'. subst b. exact (Hb Hb').
+  Qed.
+End BinnedOnce.
+
+Section PathsOnce.
+  Variable P : Type.
+  Variable D : Type.
+  Variable near : P -> P -> bool.
+  Variable dist : P -> P -> D.
+  Variable ctest : list P -> list P -> bool.
+  Hypothesis near_sym : forall a b, near a b = near b a.
+  Hypothesis dist_sym : forall a b, dist a b = dist b a.
+  Hypothesis ctest_sound : forall a b, ctest a b = true -> a = b.
+
+  Lemma binned_search_once mf m w o st v1 v2 : 0 < w ->
+    StronglySorted (le_key (@ptime P)) v1 -> StronglySorted (le_key (@ptime P)) v2 ->
+    Forall (fun p => has_pos P p = true) v1 -> Forall (fun p => has_pos P p = true) v2 ->
+    NoDup (map (ipair D) (snd (binned_search P D near dist ctest mf m w o st v1 v2))).
+  Proof.
+    intros Hw S1 S2 P1 P2. unfold binned_search. destruct (length v1 <? length v2)%nat; cbn [snd].
+    - apply swap3_once.
+      apply (fold_bins_once P D near dist ctest near_sym dist_sym ctest_sound mf m w o v2 v1 Hw S2 P2). apply bins_of_NoDup.
+    - apply (fold_bins_once P D near dist ctest near_sym dist_sym ctest_sound mf m w o v1 v2 Hw S1 P1). apply bins_of_NoDup.
+  Qed.
+End PathsOnce.
+
+Lemma NoDup_map_flat_map_filter {A B C} (h : B -> C) (f : A -> list B) (g : A -> bool) l :
+  NoDup (map h (flat_map f l)) -> NoDup (map h (flat_map f (filter g l))).
+Proof.
+  induction l as [|a l IH]; intros H; cbn [filter flat_map map]; [constructor|].
+  cbn [flat_map] in H. rewrite map_app in H. apply NoDup_app_iff' in H. destruct H as [H1 [H2 H3]].
+  destruct (g a); [|exact (IH H2)]. cbn [flat_map]. rewrite map_app. apply NoDup_app_iff'.
+  split; [exact H1|]. split; [exact (IH H2)|]. intros x Hx Hy. apply (H3 x Hx).
+  rewrite in_map_iff in *. destruct Hy as [b [E Hb]]. exists b. split; [exact E|].
+  rewrite in_flat_map in *. destruct Hb as [a' [Ha' Hb]]. exists a'. apply filter_In in Ha'. split; [apply Ha'|exact Hb].
+Qed.
+
+Section Values.
+  Variable P : Type.
+  Variable D : Type.
+  Variable near : P -> P -> bool.
+  Variable dist : P -> P -> D.
+  Variable ctest : list P -> list P -> bool.
+  Hypothesis near_sym : forall a b, near a b = near b a.
+  Hypothesis dist_sym : forall a b, dist a b = dist b a.
+  Hypothesis ctest_sound : forall a b, ctest a b = true -> a = b.
+
+  Notation pt := (pt P).
+  Notation d0 := (d0 P).
+  Notation has_pos := (has_pos P).
+  Notation points_of := (points_of P).
+  Notation orig_of := (orig_of P).
+  Notation collocate := (collocate P D near dist ctest).
+  Notation checked := (checked P D near dist ctest).
+  Notation original_pairs := (original_pairs P D near dist ctest).
+  Notation ipair := (ipair D).
+
+  (* ---- the ids of the selected points stay distinct *)
+  Lemma select_ids_once lo hi d : NoDup (map pid (points_of d)) -> NoDup (map pid (points_of (select P lo hi d))).
+  Proof.
+    destruct d as [l|ls]; cbn [select C04_collocate.points_of]; intros H.
+    - apply (Permutation_NoDup (l := map pid (filter (fun p : pt => in_range lo hi (ptime p)) l))).
+      + apply Permutation_map. symmetry. apply isort_perm.
+      + apply NoDup_map_filter. exact H.
+    - apply (Permutation_NoDup (l := map pid (flat_map (line_pts P) (filter (fun l => in_range lo hi (fst l)) ls)))).
+      + apply Permutation_map. apply Permutation_flat_map. symmetry. apply isort_perm.
+      + apply NoDup_map_flat_map_filter. exact H.
+  Qed.
+
+  (* ---- collocate is _create_return of the checked rows *)
+  Lemma collocate_checked tn st c dp ds :
+    snd (collocate tn st c dp ds) =
+    create_return P D (selected_p P c dp ds) (selected_s P c dp ds)
+                  (filter has_pos (selected_p P c dp ds)) (filter has_pos (selected_s P c dp ds))
+                  (orig_of (selected_p P c dp ds)) (orig_of (selected_s P c dp ds)) (checked tn st c dp ds).
+  Proof.
+    unfold C04_collocate.collocate, C04_collocate.checked, selected_p, selected_s.
+    destruct (isnil _ || isnil _); cbn [snd]; [reflexivity|].
+    match goal with |- context [isnil (snd ?r)] => destruct (snd r) as [|x0 l0] eqn:Er end; cbn [isnil snd]; reflexivity.
+  Qed.
+
+  (* ---- every checked row names two NaN-free selected points that are near, with their distance *)
+  Lemma checked_raw_ok tn st c dp ds : 0 < bw tn ->
+    forall x, In x (checked tn st c dp ds) ->
+      hitp P D near dist (filter has_pos (selected_p P c dp ds)) (filter has_pos (selected_s P c dp ds)) x.
+  Proof.
+    intros Hb x. unfold C04_collocate.checked.
+    destruct (isnil _ || isnil _); [intros []|]. cbv zeta. rewrite filter_In. intros [Hx _]. revert x Hx.
+    match goal with |- forall x, In x (snd ?r) -> hitp _ _ _ _ ?v1 ?v2 x =>
+      assert (Hraw : raw_ok P D near dist (mi c) v1 v2 (snd r)) end.
+    { destruct (thr tn <? _).
+      - apply (binned_ok_all P D near dist ctest near_sym dist_sym ctest_sound tn c Hb);
+          try apply filter_has_pos; apply SS_filter; apply sorted_points.
+      - apply (direct_raw_ok P D near dist ctest near_sym dist_sym ctest_sound); apply filter_has_pos. }
+    exact (proj1 Hraw).
+  Qed.
+
+  (* ---- each index pair once, on both paths *)
+  Lemma checked_once tn st c dp ds : 0 < bw tn -> NoDup (map ipair (checked tn st c dp ds)).
+  Proof.
+    intros Hb. unfold C04_collocate.checked.
+    destruct (isnil _ || isnil _); [constructor|]. cbv zeta. apply NoDup_map_filter.
+    destruct (thr tn <? _).
+    - apply (binned_search_once P D near dist ctest near_sym dist_sym ctest_sound); [exact Hb| | | |];
+        try apply filter_has_pos; apply SS_filter; apply sorted_points.
+    - apply spatial_search_once.
+  Qed.
+
+  Lemma hitp_valid v1 v2 x : hitp P D near dist v1 v2 x ->
+    (fst (fst x) < length v1)%nat /\ (snd (fst x) < length v2)%nat.
+  Proof.
+    intros [p [s [a [b [Hp [Hs _]]]]]]. split; apply nth_error_Some; congruence.
+  Qed.
+
+  (* ---- each pair once, by the ids the data carry *)
+  Lemma pairs_once tn st c dp ds : 0 < bw tn ->
+    NoDup (map pid (points_of dp)) -> NoDup (map pid (points_of ds)) ->
+    NoDup (ids_opt P D (snd (collocate tn st c dp ds))).
+  Proof.
+    intros Hb N1 N2. rewrite collocate_checked, ids_create.
+    set (f1 := selected_p P c dp ds). set (f2 := selected_s P c dp ds).
+    set (v1 := filter has_pos f1). set (v2 := filter has_pos f2).
+    pose proof (checked_raw_ok tn st c dp ds Hb) as Hhit. fold f1 f2 v1 v2 in Hhit.
+    pose proof (checked_once tn st c dp ds Hb) as Honce.
+    assert (M1 : NoDup (map pid v1)) by (apply NoDup_map_filter; apply select_ids_once; exact N1).
+    assert (M2 : NoDup (map pid v2)) by (apply NoDup_map_filter; apply select_ids_once; exact N2).
+    set (g := fun ij : nat * nat =>
+               (pid (nth (nth (fst ij) (orig_of f1) 0%nat) f1 d0), pid (nth (nth (snd ij) (orig_of f2) 0%nat) f2 d0))).
+    change (NoDup (map (fun x => g (ipair x)) (checked tn st c dp ds))).
+    rewrite <- (map_map ipair g). apply NoDup_map_inj_in; [|exact Honce]. unfold g.
+    intros ij ij' Hi Hi' E. rewrite in_map_iff in Hi, Hi'.
+    destruct Hi as [x [<- Hx]]. destruct Hi' as [y [<- Hy]].
+    destruct (hitp_valid _ _ _ (Hhit x Hx)) as [Lx1 Lx2]. destruct (hitp_valid _ _ _ (Hhit y Hy)) as [Ly1 Ly2].
+    unfold C04_collocate.ipair in *. unfold v1 in Lx1, Ly1. unfold v2 in Lx2, Ly2.
+    rewrite (orig_of_nth P f1 _ Lx1), (orig_of_nth P f1 _ Ly1), (orig_of_nth P f2 _ Lx2), (orig_of_nth P f2 _ Ly2) in E.
+    fold v1 v2 in E, Lx1, Lx2, Ly1, Ly2. inversion E as [[E1 E2]].
+    rewrite <- (map_nth pid v1 d0), <- (map_nth pid v1 d0 (fst (fst y))) in E1.
+    rewrite <- (map_nth pid v2 d0), <- (map_nth pid v2 d0 (snd (fst y))) in E2.
+    apply (proj1 (NoDup_nth (map pid v1) (pid d0)) M1) in E1; [|rewrite map_length; exact Lx1|rewrite map_length; exact Ly1].
+    apply (proj1 (NoDup_nth (map pid v2) (pid d0)) M2) in E2; [|rewrite map_length; exact Lx2|rewrite map_length; exact Ly2].
+    destruct (fst x) as [i j], (fst y) as [i' j']. cbn [fst snd] in E1, E2. congruence.
+  Qed.
+
+  (* ---- the stored points of the k-th pair *)
+  Lemma result_shape tn st c dp ds res : snd (collocate tn st c dp ds) = Some res ->
+    let f1 := selected_p P c dp ds in let f2 := selected_s P c dp ds in
+    let ok := checked tn st c dp ds in
+    let rp := map (fun x => nth (fst (fst x)) (orig_of f1) 0%nat) ok in
+    let rs := map (fun x => nth (snd (fst x)) (orig_of f2) 0%nat) ok in
+    ok <> [] /\
+    res = mk_res P D (gather d0 (fst (compact rp)) f1) (gather d0 (fst (compact rs)) f2) (snd (compact rp)) (snd (compact rs))
+            (map (fun x => interval_s (ptime (nth (fst (fst x)) (filter has_pos f1) d0))
+                                      (ptime (nth (snd (fst x)) (filter has_pos f2) d0))) ok)
+            (map snd ok).
+  Proof.
+    rewrite collocate_checked. cbv zeta. unfold create_return.
+    destruct (checked tn st c dp ds) as [|x0 l0]; [discriminate|]. intros H. inversion H. split; [discriminate|reflexivity].
+  Qed.
+
+  Lemma pair_pts_orig tn st c dp ds res : snd (collocate tn st c dp ds) = Some res ->
+    pair_pts P D res = map (fun ij => (nth (fst ij) (selected_p P c dp ds) d0, nth (snd ij) (selected_s P c dp ds) d0))
+                           (original_pairs tn st c dp ds).
+  Proof.
+    intros H. destruct (result_shape tn st c dp ds res H) as [_ ->]. unfold pair_pts. cbn [r_prow r_prim r_srow r_sec].
+    rewrite !gather_compact. unfold gather, C04_collocate.original_pairs. rewrite !map_map. rewrite combine_map_same. reflexivity.
+  Qed.
+
+  Lemma pair_pts_checked tn st c dp ds res : 0 < bw tn -> snd (collocate tn st c dp ds) = Some res ->
+    pair_pts P D res = map (fun x => (nth (fst (fst x)) (filter has_pos (selected_p P c dp ds)) d0,
+                                      nth (snd (fst x)) (filter has_pos (selected_s P c dp ds)) d0))
+                           (checked tn st c dp ds).
+  Proof.
+    intros Hb H. rewrite (pair_pts_orig tn st c dp ds res H). unfold C04_collocate.original_pairs. rewrite map_map.
+    apply map_ext_in. intros x Hx. cbn [fst snd].
+    destruct (hitp_valid _ _ _ (checked_raw_ok tn st c dp ds Hb x Hx)) as [L1 L2].
+    rewrite (orig_of_nth P _ _ L1), (orig_of_nth P _ _ L2). reflexivity.
+  Qed.
+
+  Lemma ids_pair_pts (res : result P D) : ids P D res = map (fun ps => (pid (fst ps), pid (snd ps))) (pair_pts P D res).
+  Proof.
+    unfold ids, pair_pts. generalize (gather d0 (r_prow res) (r_prim res)) (gather d0 (r_srow res) (r_sec res)).
+    induction l as [|a l IH]; intros [|b l']; cbn [map combine]; try reflexivity. rewrite IH. reflexivity.
+  Qed.
+
+  (* ---- values_are_of_the_pair *)
+  Lemma values_of_the_pair tn st c dp ds res : 0 < bw tn -> snd (collocate tn st c dp ds) = Some res ->
+    r_int res = map (fun ps => Z.abs (ptime (fst ps) - ptime (snd ps)) / sec) (pair_pts P D res) /\
+    map Some (r_dist res) = map (fun ps => pos_dist P D dist (fst ps) (snd ps)) (pair_pts P D res) /\
+    Forall (fun ps => In (fst ps) (points_of dp) /\ In (snd ps) (points_of ds)) (pair_pts P D res) /\
+    ids P D res = map (fun ps => (pid (fst ps), pid (snd ps))) (pair_pts P D res).
+  Proof.
+    intros Hb H. rewrite (pair_pts_checked tn st c dp ds res Hb H).
+    destruct (result_shape tn st c dp ds res H) as [_ Hres].
+    pose proof (checked_raw_ok tn st c dp ds Hb) as Hhit.
+    split; [|split; [|split]].
+    - rewrite Hres. cbn [r_int]. rewrite map_map. reflexivity.
+    - rewrite Hres. cbn [r_dist]. rewrite !map_map. apply map_ext_in. intros x Hx. cbn [fst snd].
+      destruct (Hhit x Hx) as [p [s [a [b [Hp [Hs [Hpa [Hsb [_ Hd]]]]]]]]].
+      rewrite (nth_error_nth _ _ d0 Hp), (nth_error_nth _ _ d0 Hs). unfold pos_dist. rewrite Hpa, Hsb, Hd. reflexivity.
+    - rewrite Forall_forall. intros ps Hps. rewrite in_map_iff in Hps. destruct Hps as [x [<- Hx]]. cbn [fst snd].
+      destruct (Hhit x Hx) as [p [s [a [b [Hp [Hs _]]]]]].
+      rewrite (nth_error_nth _ _ d0 Hp), (nth_error_nth _ _ d0 Hs).
+      apply nth_error_In in Hp. apply nth_error_In in Hs. apply filter_In in Hp. apply filter_In in Hs.
+      unfold selected_p in Hp. unfold selected_s in Hs.
+      split; [exact (proj1 (proj1 (select_points P _ _ dp p) (proj1 Hp)))|exact (proj1 (proj1 (select_points P _ _ ds s) (proj1 Hs)))].
+    - rewrite <- (pair_pts_checked tn st c dp ds res Hb H). apply ids_pair_pts.
+  Qed.
+
+  (* ---- compaction_consistent *)
+  Lemma orig_of_lt f : forall k i, (i < length (filter has_pos f))%nat -> (nth i (orig_from P k f) 0 < k + length f)%nat.
+  Proof.
+    induction f as [|p t IH]; intros k i Hi; cbn [filter length] in Hi; [lia|].
+    cbn [orig_from filter length] in *. destruct (has_pos p).
+    - destruct i as [|i]; cbn [nth]; [lia|]. cbn [length] in Hi. specialize (IH (S k) i ltac:(lia)). lia.
+    - specialize (IH (S k) i Hi). lia.
+  Qed.
+
+  Lemma gather_length {A} (d : A) idx vals : length (gather d idx vals) = length idx.
+  Proof. unfold gather. apply map_length. Qed.
+
+  Lemma compaction_ok tn st c dp ds res : 0 < bw tn -> snd (collocate tn st c dp ds) = Some res ->
+    let f1 := selected_p P c dp ds in let f2 := selected_s P c dp ds in
+    let op := original_pairs tn st c dp ds in
+    op <> [] /\
+    Forall (fun ij => (fst ij < length f1)%nat /\ (snd ij < length f2)%nat) op /\
+    compact_ok (as_cds P D res) /\
+    expand d0 d0 (as_cds P D res) = map (fun ij => (nth (fst ij) f1 d0, nth (snd ij) f2 d0)) op /\
+    r_prim res = gather d0 (uniq (map fst op)) f1 /\ r_sec res = gather d0 (uniq (map snd op)) f2.
+  Proof.
+    intros Hb H. cbv zeta.
+    destruct (result_shape tn st c dp ds res H) as [Hne Hres].
+    split; [|split; [|split; [|split; [|split]]]].
+    - unfold C04_collocate.original_pairs. destruct (checked tn st c dp ds); [congruence|discriminate].
+    - unfold C04_collocate.original_pairs. rewrite Forall_forall. intros ij Hij. rewrite in_map_iff in Hij.
+      destruct Hij as [x [<- Hx]]. cbn [fst snd].
+      destruct (hitp_valid _ _ _ (checked_raw_ok tn st c dp ds Hb x Hx)) as [L1 L2].
+      split; [apply (orig_of_lt _ 0 _ L1)|apply (orig_of_lt _ 0 _ L2)].
+    - rewrite Hres. unfold as_cds, compact_ok. cbn [prow srow pvals svals r_prow r_srow r_prim r_sec].
+      rewrite !gather_length. split; [|split; apply compact_row_ok].
+      unfold compact. cbn [snd]. rewrite !map_length. reflexivity.
+    - exact (pair_pts_orig tn st c dp ds res H).
+    - rewrite Hres. cbn [r_prim]. unfold compact, C04_collocate.original_pairs. cbn [fst]. rewrite !map_map. reflexivity.
+    - rewrite Hres. cbn [r_sec]. unfold compact, C04_collocate.original_pairs. cbn [fst]. rewrite !map_map. reflexivity.
+  Qed.
+
+  Lemma none_iff_no_original tn st c dp ds :
+    snd (collocate tn st c dp ds) = None <-> original_pairs tn st c dp ds = [].
+  Proof.
+    rewrite collocate_checked. unfold C04_collocate.original_pairs, create_return.
+    destruct (checked tn st c dp ds); cbn [map]; split; intros; try reflexivity; discriminate.
+  Qed.
+
+  (* every original point is stored once: the stored ids are distinct *)
+  Lemma stored_once tn st c dp ds res : 0 < bw tn -> snd (collocate tn st c dp ds) = Some res ->
+    NoDup (map pid (points_of dp)) -> NoDup (map pid (points_of ds)) ->
+    NoDup (map pid (r_prim res)) /\ NoDup (map pid (r_sec res)).
+  Proof.
+    intros Hb H N1 N2.
+    destruct (compaction_ok tn st c dp ds res Hb H) as [_ [Hv [_ [_ [E1 E2]]]]]. rewrite Forall_forall in Hv.
+    assert (G : forall (f : list pt) (u : list nat), NoDup (map pid f) -> NoDup u -> (forall i, In i u -> (i < length f)%nat) ->
+                NoDup (map pid (gather d0 u f))).
+    { intros f u Nf Nu Hu. unfold gather. rewrite map_map. apply NoDup_map_inj_in; [|exact Nu].
+      intros i j Hi Hj E. rewrite <- !(map_nth pid f d0) in E.
+      apply (proj1 (NoDup_nth (map pid f) (pid d0)) Nf); [rewrite map_length; apply Hu; exact Hi|rewrite map_length; apply Hu; exact Hj|exact E]. }
+    split.
+    - rewrite E1. apply G; [apply select_ids_once; exact N1|apply uniq_NoDup|].
+      intros i Hi. apply (proj1 (uniq_In i _)) in Hi. apply in_map_iff in Hi. destruct Hi as [ij [<- Hij]]. apply (Hv ij Hij).
+    - rewrite E2. apply G; [apply select_ids_once; exact N2|apply uniq_NoDup|].
+      intros i Hi. apply (proj1 (uniq_In i _)) in Hi. apply in_map_iff in Hi. destruct Hi as [ij [<- Hij]]. apply (Hv ij Hij).
+  Qed.
+End Values.
+
+(* ------------------------------------------------------------------ the checker of the implementation's output *)
+Lemma nodupZ_iff l : nodupZ l = true <-> NoDup l.
+Proof.
+  induction l as [|x t IH]; cbn [nodupZ]; [split; [constructor|reflexivity]|].
+  rewrite andb_true_iff, negb_true_iff, IH. split.
+  - intros [H1 H2]. constructor; [|exact H2]. intros Hi.
+    assert (E : existsb (Z.eqb x) t = true) by (apply existsb_exists; exists x; split; [exact Hi|apply Z.eqb_refl]).
+    congruence.
+  - intros H. inversion H as [|? ? Hn Ht]; subst. split; [|exact Ht].
+    destruct (existsb (Z.eqb x) t) eqn:E; [|reflexivity]. exfalso. apply Hn.
+    apply existsb_exists in E. destruct E as [y [Hy E]]. apply Z.eqb_eq in E. subst y. exact Hy.
+Qed.
+
+Lemma ns_zs l : ns (zs l) = l.
+Proof. unfold ns, zs. rewrite map_map. rewrite (map_ext _ (fun x => x)); [apply map_id|]. intros x. apply Nat2Z.id. Qed.
+
+Lemma gather_map_pid {P} idx (l : list (pt P)) : gather 0 idx (map pid l) = map pid (gather (d0 P) idx l).
+Proof.
+  unfold gather. rewrite map_map. apply map_ext. intros i. exact (map_nth pid l (d0 P) i).
+Qed.
+
+Section Checker.
+  Variable P : Type.
+  Variable D : Type.
+  Variable near : P -> P -> bool.
+  Variable dist : P -> P -> D.
+  Variable ctest : list P -> list P -> bool.
+  Hypothesis near_sym : forall a b, near a b = near b a.
+  Hypothesis dist_sym : forall a b, dist a b = dist b a.
+  Hypothesis ctest_sound : forall a b, ctest a b = true -> a = b.
+
+  (* what the checker demands of the implementation holds of every output of the model *)
+  Lemma checker_accepts tn st c dp ds res : 0 < bw tn ->
+    NoDup (map pid (points_of P dp)) -> NoDup (map pid (points_of P ds)) ->
+    snd (collocate P D near dist ctest tn st c dp ds) = Some res ->
+    check_output (zs (r_prow res)) (zs (r_srow res)) (map pid (r_prim res)) (map pid (r_sec res)) = (true, true, ids P D res).
+  Proof.
+    intros Hb N1 N2 H. unfold check_output. rewrite !ns_zs.
+    destruct (compaction_ok P D near dist ctest near_sym dist_sym ctest_sound tn st c dp ds res Hb H) as [_ [_ [Hok _]]].
+    destruct (stored_once P D near dist ctest near_sym dist_sym ctest_sound tn st c dp ds res Hb H N1 N2) as [S1 S2].
+    f_equal; [f_equal|].
+    - apply compact_okb_iff_l. unfold compact_ok, as_cds in *. cbn [prow srow pvals svals] in *. rewrite !map_length. exact Hok.
+    - apply andb_true_iff. split; apply nodupZ_iff; assumption.
+    - unfold expand, ids. cbn [prow srow pvals svals]. rewrite !gather_map_pid. reflexivity.
+  Qed.
+End Checker.
+
+(* what a passed check says about the implementation's output *)
+Lemma checker_sound_l prow srow pids sids e : check_output prow srow pids sids = (true, true, e) ->
+  compact_ok (mk_cds (ns prow) (ns srow) pids sids) /\ NoDup pids /\ NoDup sids /\
+  e = expand 0 0 (mk_cds (ns prow) (ns srow) pids sids).
+Proof.
+  unfold check_output. intros H.
+  assert (H1 : compact_okb (mk_cds (ns prow) (ns srow) pids sids) = true) by congruence.
+  assert (H2 : nodupZ pids && nodupZ sids = true) by congruence.
+  assert (H3 : expand 0 0 (mk_cds (ns prow) (ns srow) pids sids) = e) by congruence.
+  apply andb_true_iff in H2. destruct H2 as [N1 N2].
+  split; [apply compact_okb_iff_l; exact H1|]. split; [apply nodupZ_iff; exact N1|]. split; [apply nodupZ_iff; exact N2|symmetry; exact H3].
+Qed.
+
+(* ================================================================== the code on its three arrays = the model on rows *)
+Lemma compress_map {A B} (p : A -> bool) (g : A -> B) l : compress (map p l) (map g l) = map g (filter p l).
+Proof.
+  induction l as [|a l IH]; cbn [map compress filter]; [reflexivity|]. destruct (p a); cbn [map]; rewrite IH; reflexivity.
+Qed.
+
+Section ArraysAgree.
+  Variable P : Type.
+  Variable D : Type.
+  Variable near : P -> P -> bool.
+  Variable dist : P -> P -> D.
+  Variable ctest : list P -> list P -> bool.
+
+  Notation unzip3 := (unzip3 D).
+
+  Lemma unzip3_app a b : unzip3 (a ++ b) = hstack D (unzip3 a) (unzip3 b).
+  Proof. unfold C04_collocate.unzip3, hstack. cbn [h0 h1 hd]. rewrite !map_app. reflexivity. Qed.
+
+  Lemma unzip3_swap r : unzip3 (map (swap3 D) r) = swap_rows D (unzip3 r).
+  Proof. unfold C04_collocate.unzip3, swap_rows. cbn [h0 h1 hd]. rewrite !map_map. reflexivity. Qed.
+
+  Lemma unzip3_shift o1 o2 r : unzip3 (map (shift3 D o1 o2) r) = add_offsets D o1 o2 (unzip3 r).
+  Proof. unfold C04_collocate.unzip3, add_offsets. cbn [h0 h1 hd]. rewrite !map_map. reflexivity. Qed.
+
+  Lemma spatial_search_a_eq mf st L1 L2 :
+    spatial_search_a P D near dist ctest mf st L1 L2 =
+    (fst (spatial_search P D near dist ctest mf st L1 L2), unzip3 (snd (spatial_search P D near dist ctest mf st L1 L2))).
+  Proof.
+    unfold spatial_search_a, spatial_search, gquery_a. cbn [fst snd].
+    destruct (choose P ctest mf st L1 L2); [reflexivity|]. rewrite unzip3_swap. reflexivity.
+  Qed.
+
+  Lemma bin_search_a_eq mf m w o A B st b :
+    bin_search_a P D near dist ctest mf m w o A B st b =
+    (fst (bin_search P D near dist ctest mf m w o A B st b), unzip3 (snd (bin_search P D near dist ctest mf m w o A B st b))).
+  Proof.
+    unfold bin_search_a, bin_search.
+    match goal with |- context [isnil ?c1 || isnil ?c2] => destruct (isnil c1 || isnil c2) end; [reflexivity|].
+    rewrite spatial_search_a_eq. cbn [fst snd]. rewrite unzip3_shift. reflexivity.
+  Qed.
+
+  Lemma fold_bins_a_eq mf m w o A B : forall bs st,
+    fold_bins_a P D (bin_search_a P D near dist ctest mf m w o A B) st bs =
+    (fst (fold_bins P D (bin_search P D near dist ctest mf m w o A B) st bs),
+     unzip3 (snd (fold_bins P D (bin_search P D near dist ctest mf m w o A B) st bs))).
+  Proof.
+    induction bs as [|b t IH]; intros st; cbn [fold_bins_a fold_bins fst snd]; [reflexivity|].
+    rewrite bin_search_a_eq. cbn [fst snd]. rewrite IH. cbn [fst snd]. rewrite unzip3_app. reflexivity.
+  Qed.
+
+  Lemma binned_search_a_eq mf m w o st V1 V2 :
+    binned_search_a P D near dist ctest mf m w o st V1 V2 =
+    (fst (binned_search P D near dist ctest mf m w o st V1 V2), unzip3 (snd (binned_search P D near dist ctest mf m w o st V1 V2))).
+  Proof.
+    unfold binned_search_a, binned_search. rewrite fold_bins_a_eq. cbn [fst snd].
+    destruct (length V1 <? length V2)%nat; [rewrite unzip3_swap|]; reflexivity.
+  Qed.
+
+  Lemma intervals_unzip v1 v2 (r : list (nat * nat * D)) :
+    intervals_a (take_times P v1 (h0 (unzip3 r))) (take_times P v2 (h1 (unzip3 r))) =
+    map (fun x => interval_s (ptime (nth (fst (fst x)) v1 (d0 P))) (ptime (nth (snd (fst x)) v2 (d0 P)))) r.
+  Proof.
+    unfold intervals_a, take_times, C04_collocate.unzip3. cbn [h0 h1]. rewrite !map_map.
+    induction r as [|x r IH]; cbn [map combine]; [reflexivity|]. rewrite IH. reflexivity.
+  Qed.
+
+  (* the code on its three arrays computes what the model on rows computes: state and result *)
+  Lemma collocate_a_eq tn st c dp ds :
+    collocate_a P D near dist ctest tn st c dp ds = collocate P D near dist ctest tn st c dp ds.
+  Proof.
+    unfold collocate_a, collocate.
+    destruct (isnil _ || isnil _); [reflexivity|].
+    match goal with |- context [thr tn <? ?n] => destruct (thr tn <? n) end.
+    - rewrite binned_search_a_eq. cbn [fst snd].
+      match goal with |- context [unzip3 (snd ?r)] => set (rr := r) end.
+      destruct (snd rr) as [|x0 l0] eqn:Er; [reflexivity|]. rewrite <- Er.
+      assert (Hn : isnil (h0 (unzip3 (snd rr))) = false) by (rewrite Er; reflexivity). rewrite Hn.
+      assert (Hn' : isnil (snd rr) = false) by (rewrite Er; reflexivity). rewrite Hn'.
+      f_equal. rewrite intervals_unzip.
+      set (passf := fun x : nat * nat * D => passes (mi c) _ _).
+      rewrite (map_map _ (fun iv => iv * sec <? mi c)).
+      change (map (fun x : nat * nat * D => interval_s _ _ * sec <? mi c) (snd rr)) with (map passf (snd rr)).
+      unfold C04_collocate.unzip3 at 1 2 3. cbn [h0 h1 hd]. rewrite !compress_map.
+      unfold create_return_a, create_return. rewrite !map_map.
+      destruct (filter passf (snd rr)); reflexivity.
+    - rewrite spatial_search_a_eq. cbn [fst snd].
+      match goal with |- context [unzip3 (snd ?r)] => set (rr := r) end.
+      destruct (snd rr) as [|x0 l0] eqn:Er; [reflexivity|]. rewrite <- Er.
+      assert (Hn : isnil (h0 (unzip3 (snd rr))) = false) by (rewrite Er; reflexivity). rewrite Hn.
+      assert (Hn' : isnil (snd rr) = false) by (rewrite Er; reflexivity). rewrite Hn'.
+      f_equal. rewrite intervals_unzip.
+      set (passf := fun x : nat * nat * D => passes (mi c) _ _).
+      rewrite (map_map _ (fun iv => iv * sec <? mi c)).
+      change (map (fun x : nat * nat * D => interval_s _ _ * sec <? mi c) (snd rr)) with (map passf (snd rr)).
+      unfold C04_collocate.unzip3 at 1 2 3. cbn [h0 h1 hd]. rewrite !compress_map.
+      unfold create_return_a, create_return. rewrite !map_map.
+      destruct (filter passf (snd rr)); reflexivity.
+  Qed.
+End ArraysAgree.
